@@ -5,7 +5,8 @@ From TK Require Import Mat_Sums Mat_Core Mat_Qc.
 From TK Require Import Dijkstra_Model Dijkstra_Spec Dijkstra_IsoModel Dijkstra_IsoExec Dijkstra_Sched_Model
      Dijkstra_Proof_Base Dijkstra_Proof_Spec Dijkstra_Proof Dijkstra_Proof_Iso Dijkstra_Proof_IsoExec
      Dijkstra_Proof_Sched Dijkstra_IsoEmbed Dijkstra_IsoSelect Dijkstra_IsoOptimal Dijkstra_FibC_Model
-     Dijkstra_Proof_FibC.
+     Dijkstra_Proof_FibC Dijkstra_Scale Dijkstra_IsoFrobenius.
+From TK Require Mds_Proof_Optimal Mds_Proof_OptimalClamped.
 From Coq Require Import Permutation.
 Import ListNotations.
 Local Open Scope Z_scope.
@@ -274,6 +275,81 @@ Theorem isomap_subspace_optimal : forall (n d : nat) (G Vf : mat Qc) (Lf : vec Q
 Proof. exact Dijkstra_IsoOptimal.isomap_subspace_optimal. Qed.
 Print Assumptions isomap_subspace_optimal.
 
+(* ---- scale equivariance: a change of the unit of length commutes with everything (wave 2) ----
+   The correspondence run multiplies weight tables by 2^-70 .. 2^70 and keeps the model on the integer table;
+   these theorems are what makes that legitimate, and what an ABSOLUTE tolerance in a relax / pop / stale-entry
+   comparison falsifies (seeded change C04_1_r2). *)
+Theorem geodesic_spec_scale_equivariant : forall c nbrs w N k v, 0 < c ->
+    sp nbrs (scale_w c w) N k v = scale_o c (sp nbrs w N k v).
+Proof. exact sp_scale. Qed.
+Print Assumptions geodesic_spec_scale_equivariant.
+
+(* both heap configurations, any two admissible tie-breakings (they may differ between the two runs) *)
+Theorem dijkstra_scale_equivariant : forall fl1 fl2 nbrs w N K pick1 pick2 c,
+    wf_graph nbrs N K -> nonneg_w nbrs w -> pick_ok pick1 -> pick_ok pick2 -> (0 < N)%nat -> 0 < c ->
+    exists m, full_matrix fl2 nbrs w pick2 N = DOk m /\
+              full_matrix fl1 nbrs (scale_w c w) pick1 N = DOk (scale_mat c m).
+Proof. exact full_matrix_scale. Qed.
+Print Assumptions dijkstra_scale_equivariant.
+
+Theorem landmark_scale_equivariant : forall fl1 fl2 nbrs w N K pick1 pick2 lm c,
+    wf_graph nbrs N K -> nonneg_w nbrs w -> pick_ok pick1 -> pick_ok pick2 -> (0 < N)%nat ->
+    Forall (fun v => (v < N)%nat) lm -> 0 < c ->
+    exists m, landmark_matrix_fixed fl2 nbrs w pick2 N lm = DOk m /\
+              landmark_matrix_fixed fl1 nbrs (scale_w c w) pick1 N lm = DOk (scale_mat c m).
+Proof. exact landmark_matrix_scale. Qed.
+Print Assumptions landmark_scale_equivariant.
+
+(* the same over the concrete Fibonacci heap of property C16 *)
+Theorem fib_concrete_scale_equivariant : forall nbrs w N K lm c,
+    wf_graph nbrs N K -> nonneg_w nbrs w -> (0 < N)%nat -> Forall (fun v => (v < N)%nat) lm -> 0 < c ->
+    exists m ml, full_matrix_fibc nbrs w N = DOk m /\
+                 full_matrix_fibc nbrs (scale_w c w) N = DOk (scale_mat c m) /\
+                 landmark_matrix_fibc nbrs w N lm = DOk ml /\
+                 landmark_matrix_fibc nbrs (scale_w c w) N lm = DOk (scale_mat c ml).
+Proof. exact fibc_scale. Qed.
+Print Assumptions fib_concrete_scale_equivariant.
+
+(* embed(): geodesics times c -> the matrix handed to the solver times c^2 (every n, every table, every c) *)
+Theorem isomap_matrix_scale_equivariant : forall n (c : Qc) (G : mat Qc) i j,
+    (iso_fixed n (mscale c G) i j = (c * c) * iso_fixed n G i j)%F.
+Proof. exact (@iso_fixed_scale Qc QcOps QcField). Qed.
+Print Assumptions isomap_matrix_scale_equivariant.
+
+(* ... the oracle contract is carried along (same eigenvectors, eigenvalues times c^2, sqrt factors times c) and
+   the returned embedding is c times the embedding *)
+Theorem isomap_embedding_scale_equivariant : forall (n d : nat) (c : Qc) (B V : mat Qc) (lam s : vec Qc),
+    (forall i j, (i < n)%nat -> (j < d)%nat -> sumn n (fun t => B i t * V t j) = lam j * V i j)%F ->
+    (forall j, (j < d)%nat -> s j * s j = lam j)%F ->
+    (forall i j, (i < n)%nat -> (j < d)%nat ->
+        sumn n (fun t => mscale (c * c) B i t * V t j) = ((c * c) * lam j) * V i j)%F /\
+    (forall j, (j < d)%nat -> (c * s j) * (c * s j) = (c * c) * lam j)%F /\
+    (forall i j, scale_cols V (fun j => c * s j) i j = c * scale_cols V s i j)%F.
+Proof. exact (@embed_contract_scale Qc QcOps QcField). Qed.
+Print Assumptions isomap_embedding_scale_equivariant.
+
+(* ---- Eckart-Young in the Frobenius norm (wave 2; composes property C05's Mds_Proof_OptimalClamped.v) ----
+   Under the full-decomposition contract and sqrt(max(x,0)): for EVERY orthonormal n x d frame Q and EVERY d x d
+   matrix C with Q C Q^T positive semi-definite (over the reals: every Gram matrix of a d-dimensional configuration),
+   | -1/2 J S J - Y Y^T |_F^2 <= | -1/2 J S J - Q C Q^T |_F^2 for the Y that embed() returns; eigenvalues of any sign
+   (geodesic distances need not be Euclidean).  The oracles stay hypotheses. *)
+Theorem isomap_frobenius_optimal : forall (n d : nat) (G Vf : mat Qc) (Lf s : vec Qc) (Q C : mat Qc),
+    n <> 0%nat -> (d <= n)%nat ->
+    (forall i j, (i < n)%nat -> (j < n)%nat ->
+        sumn n (fun t => seen_by_dense (iso_fixed n G) i t * Vf t j) = Lf j * Vf i j)%F ->
+    (forall a b, (a < n)%nat -> (b < n)%nat -> sumn n (fun t => Vf t a * Vf t b) = delta a b)%F ->
+    (forall a b, (a < n)%nat -> (b < n)%nat -> sumn n (fun m => Vf a m * Vf b m) = delta a b)%F ->
+    (forall a b, (a <= b)%nat -> (b < n)%nat -> (Lf a <= Lf b)%Qc) ->
+    (forall j, (j < d)%nat -> (0 <= sel_vals n d Lf j)%Qc -> s j * s j = sel_vals n d Lf j)%F ->
+    (forall j, (j < d)%nat -> (sel_vals n d Lf j < 0)%Qc -> s j = 0)%F ->
+    (forall a b, (a < d)%nat -> (b < d)%nat -> sumn n (fun t => Q t a * Q t b) = delta a b)%F ->
+    (forall x : vec Qc, (0 <= Mds_Proof_OptimalClamped.qf n (Mds_Proof_Optimal.lowrank d Q C) x)%Qc) ->
+    let Y := scale_cols (sel_cols n d Vf) s in
+    (Mds_Proof_Optimal.fro2 n n (msub (mds_ref n G) (mmul d Y (mtrans Y))) <=
+     Mds_Proof_Optimal.fro2 n n (msub (mds_ref n G) (Mds_Proof_Optimal.lowrank d Q C)))%Qc.
+Proof. exact isomap_frobenius_optimal_clamped. Qed.
+Print Assumptions isomap_frobenius_optimal.
+
 (* ---- non-vacuity: the hypotheses are satisfiable together ---- *)
 Example hypotheses_satisfiable :
     wf_graph f4_nbrs 3 1 /\ nonneg_w f4_nbrs f4_w /\ metric_w f4_w 3 /\
@@ -337,3 +413,29 @@ Example optimal_hypotheses_satisfiable :
     sumn d (fun j => quad n (mds_ref n emb_G) (mcol W j)) = qz 0 /\
     sumn d (fun j => sel_vals n d emb_Lf j) = qz 4.
 Proof. exact isomap_optimal_contract_satisfiable. Qed.
+
+(* scaling: the F4 witness graph with a unit 2^70 times finer (computed by the model, not deduced) *)
+Example scale_hypotheses_satisfiable :
+    full_matrix FIB f4_nbrs (scale_w (2 ^ 70) f4_w) pick_first_min 3 =
+    DOk (scale_mat (2 ^ 70) (sp_matrix f4_nbrs f4_w 3)) /\ 0 < 2 ^ 70.
+Proof. exact scale_example. Qed.
+
+(* the contract of isomap_frobenius_optimal for the four samples, with a positive semi-definite competitor (the Gram
+   matrix of the constant configuration) that is strictly worse: 0 < 17 *)
+Example frobenius_hypotheses_satisfiable :
+    let n := 4%nat in let d := 1%nat in let s : vec Qc := fun _ => qz 2 in
+    let Q : mat Qc := fun _ _ => qfrac 1 2 in let C : mat Qc := fun _ _ => fone in
+    n <> 0%nat /\ (d <= n)%nat /\
+    (forall i j, (i < n)%nat -> (j < n)%nat ->
+        sumn n (fun t => seen_by_dense (iso_fixed n emb_G) i t * emb_Vf t j) = emb_Lf j * emb_Vf i j)%F /\
+    (forall a b, (a < n)%nat -> (b < n)%nat -> sumn n (fun t => emb_Vf t a * emb_Vf t b) = delta a b)%F /\
+    (forall a b, (a < n)%nat -> (b < n)%nat -> sumn n (fun m => emb_Vf a m * emb_Vf b m) = delta a b)%F /\
+    (forall a b, (a <= b)%nat -> (b < n)%nat -> (emb_Lf a <= emb_Lf b)%Qc) /\
+    (forall j, (j < d)%nat -> (0 <= sel_vals n d emb_Lf j)%Qc -> s j * s j = sel_vals n d emb_Lf j)%F /\
+    (forall j, (j < d)%nat -> (sel_vals n d emb_Lf j < 0)%Qc -> s j = 0)%F /\
+    (forall a b, (a < d)%nat -> (b < d)%nat -> sumn n (fun t => Q t a * Q t b) = delta a b)%F /\
+    (forall x : vec Qc, (0 <= Mds_Proof_OptimalClamped.qf n (Mds_Proof_Optimal.lowrank d Q C) x)%Qc) /\
+    (let Y := scale_cols (sel_cols n d emb_Vf) s in
+     Mds_Proof_Optimal.fro2 n n (msub (mds_ref n emb_G) (mmul d Y (mtrans Y))) = qz 0) /\
+    Mds_Proof_Optimal.fro2 n n (msub (mds_ref n emb_G) (Mds_Proof_Optimal.lowrank d Q C)) = qz 17.
+Proof. exact isomap_frobenius_contract_satisfiable. Qed.
